@@ -381,7 +381,7 @@ func (ins InstructionType) IsUnconditionalBranch() bool {
 
 func (ins InstructionType) IsConditionalBranch() bool {
 	switch ins {
-	case Beq, Beqz, Bne, Bnez, Blt, Ble, Bge, Bgeu:
+	case Beq, Beqz, Bne, Bnez, Blt, Bltu, Ble, Bge, Bgeu:
 		return true
 	}
 	return false
